@@ -164,7 +164,24 @@ impl<'a> PGen<'a> {
                 }
                 _ => sym(&name),
             },
-            1 => match self.rng.usize(7) {
+            1 => match self.rng.usize(9) {
+                7 | 8 => {
+                    // two different depth-1 variables under one ellipsis (they iterate together; if they
+                    // come from different ellipses of the pattern their lengths must agree)
+                    let others: Vec<&(String, usize)> = vars.iter().filter(|v| v.1 == 1 && v.0 != name).collect();
+                    if others.is_empty() {
+                        self.features.insert("template:ellipsis");
+                        list(vec![sym(&name), sym(&self.ellipsis)])
+                    } else {
+                        self.features.insert("template:two-variables-under-ellipsis");
+                        let o = self.rng.pick(&others).0.clone();
+                        if self.rng.bool() {
+                            list(vec![list(vec![sym(&name), sym(&o)]), sym(&self.ellipsis)])
+                        } else {
+                            list(vec![list(vec![sym(&o), sym("t"), sym(&name)]), sym(&self.ellipsis)])
+                        }
+                    }
+                }
                 0 => {
                     self.features.insert("template:ellipsis");
                     list(vec![sym(&name), sym(&self.ellipsis)])
@@ -399,7 +416,7 @@ fn reference(t: &Transformer, use_form: &Cell) -> Expansion {
     t.expand(use_form)
 }
 
-const PRIORITY: [&str; 24] = [
+const PRIORITY: [&str; 25] = [
     "invalid:ellipsis-after-non-ellipsis-variable",
     "invalid:ellipsis-after-constant",
     "invalid:variable-without-enough-ellipses",
@@ -415,6 +432,7 @@ const PRIORITY: [&str; 24] = [
     "template:variable-twice-under-ellipsis",
     "template:two-ellipsis-uses-of-one-variable",
     "template:depth-0-variable-under-ellipsis",
+    "template:two-variables-under-ellipsis",
     "template:subtemplate-under-ellipsis",
     "template:ellipsis-with-tail",
     "pattern:tail-after-ellipsis",
